@@ -30,4 +30,10 @@ ActsMC == {"Leaf","Bool","Xf","Copy","Assign","Drop","Force","Same","Split","Pla
 Cat2 == { << <<-1,-1,-1>>, <<0,0,1>> >>, << <<-1,-1,0>>, <<1,1,1>> >>, << <<0,0,0>>, <<1,1,1>> >> }
 GensTiny == {"RZ", "MX"}
 ActsC02sim == {"Leaf", "Bool", "Batch", "Split", "Plane", "Xf", "BoolAssign"}
+(* C02 "derived operand" family: four bars/slabs of the K=2 window whose faces, edges and vertices   *)
+(* coincide pairwise (every pair shares a plane; vertices of one lie on edges of another), so that  *)
+(* operands that are themselves Boolean RESULTS (halfedge order decided by the Boolean, not by      *)
+(* Cube) meet exact vertex-on-edge ties in the next Boolean.                                        *)
+CatDerived == { << <<-1,0,-2>>,  <<0,2,1>> >>, << <<-1,0,-1>>,  <<0,2,2>> >>,
+                << <<-1,-2,-1>>, <<1,0,1>> >>, << <<-2,-2,-1>>, <<1,1,0>> >> }
 =============================================================================
